@@ -237,6 +237,34 @@ def run(rep, tier, seed):
             r = [2, [2]] if (r[0] == 2 and r[1][0] == 2) else r
         if g != r and len(rep.broken) < 5:
             rep.broken.append('correspondence C03/damaged: %r flags=%r model %r implementation %r' % (s, flags, r, got))
+    # the same damaged expressions over multi-word names one of which starts at an inner word of another, an unknown word
+    # being that other name's first word: "gnu" + "gpl v3" are two operands although "gnu gpl" starts the name "gnu gpl v2"
+    T2 = [('GNU-GPL-2.0', ['gnu gpl v2'], False), ('GPL-3.0', ['gpl v3'], False), ('mit', [], False), ('cpe', [], True)]
+    L2 = make_licensing(T2)
+    encT2 = enc_table(T2)
+    words2 = {'k': ['mit', 'gpl v3', 'gnu gpl v2', 'GPL  V3'], 'e': ['cpe'], 'u': ['zz', 'gnu', 'gnu'], 'and': ['and'], 'or': ['OR'],
+              'with': ['With'], '(': ['('], ')': [')']}
+    multi = []
+    for t, kind, flags in dam[:(6000 if tier == 'thorough' else 1500)] + [(tuple(x), 'none', (False, False, False)) for x in
+                                                                         (['u', 'k'], ['(', 'u', 'k', ')'], ['u', 'and', '(', 'u', 'k', 'or', 'u', ')'])]:
+        s2 = ' '.join(rng.choice(words2[x]) for x in t)
+        multi.append((t, kind, (flags[0], flags[1], False), s2))
+    res = run_model([(4, [encT2, int(f[0]), int(f[1]), 0, enc_str(s2)]) for t, _, f, s2 in multi])
+    for (t, kind, flags, s2), r in zip(multi, res):
+        ref = parsing.token_kinds_to_ref(t, False)
+        err, got = check_text(L2, s2, ref, le, flags)
+        rep.case(('multiword', s2, flags), nontrivial=(parsing.ref_classify(ref)[0] == 'invalid'), sample=None)
+        rep.count('damaged_multiword_names')
+        if err:
+            rep.violations.append({'key': 'tokens-multiword', 'kind': 'text', 'table': T2, 'flags': list(flags), 'text': s2,
+                                   'tokens': list(t), 'what': err + ' (damage: %s)' % kind})
+            continue
+        g = got
+        if g[0] == 2 and g[1][0] == 2:
+            g = [2, [2]]
+            r = [2, [2]] if (r[0] == 2 and r[1][0] == 2) else r
+        if g != r and len(rep.broken) < 5:
+            rep.broken.append('correspondence C03/multiword: %r flags=%r model %r implementation %r' % (s2, flags, r, got))
     # validate() against the model
     vreqs = [(10, [encT, int(st), enc_str(gen.render_tokens(t))]) for t in strings if t for st in (False, True)]
     vmeta = [(t, st) for t in strings if t for st in (False, True)]
